@@ -231,7 +231,7 @@ const ringModelHasAbandon = true
 
 func checkC07(c *Ctx) {
 	r := c.Rng
-	c.Ev.Coverage.Rule = "documents above the 8 KiB threshold needing 2..200 index buffers (valid, stage-1-invalid and stage-2-invalid at a chosen point, big objects truncated inside a member) parsed (every second run into the ParsedJson an earlier run returned, whose own index channel and capacity are then the ones replayed) under forced schedules through the verif event hooks: free running, lagging consumer (producer driven into the full channel), lagging producer (consumer blocked in receive), random stop/go at every event, consumer holding each just-received buffer until the producer is 15 buffers ahead; GOMAXPROCS 1/2/4/16. Each recorded event trace is linearised and replayed through the Coq transition system (extracted Ring.run): every event must be enabled, every visited state Safe, consumed in order; the outcome must equal the schedule-free model/spec outcome. non-trivial = trace with >= 2 buffers accepted by the model; distinct = by (document, mode, trace)"
+	c.Ev.Coverage.Rule = "documents above the 8 KiB threshold needing 2..200 index buffers (valid, stage-1-invalid and stage-2-invalid at a chosen point, big objects truncated inside a member, maximally dense documents whose last index buffer is over-full because the padded tail call added to it) parsed (every second run into the ParsedJson an earlier run returned, whose own index channel and capacity are then the ones replayed) under forced schedules through the verif event hooks: free running, lagging consumer (producer driven into the full channel), lagging producer (consumer blocked in receive), random stop/go at every event, consumer holding each just-received buffer until the producer is 15 buffers ahead; GOMAXPROCS 1/2/4/16. Each recorded event trace is linearised and replayed through the Coq transition system (extracted Ring.run): every event must be enabled, every visited state Safe, consumed in order; the outcome must equal the schedule-free model/spec outcome. non-trivial = trace with >= 2 buffers accepted by the model; distinct = by (document, mode, trace)"
 	capN, slots := 14, 16
 	if pj, err := simdjson.Parse([]byte(`{"a":1}`), nil); err == nil {
 		cc, _, _ := simdjson.VerifChanState(pj)
@@ -256,6 +256,13 @@ func checkC07(c *Ctx) {
 	var prev *simdjson.ParsedJson // destination of an earlier parse, handed back in every second run
 	g0 := runtime.NumGoroutine()
 	oldProcs := runtime.GOMAXPROCS(0)
+	// maximally dense documents above 8 KiB whose LAST index buffer is over-full: the buffer
+	// reaches its fill limit with at most 64 bytes of input left, and the padded tail call
+	// adds its indexes to the same buffer (up to 1535 entries; found by running stage 1 alone
+	// over one period of alignments)
+	fullTail := overfullLastBufferDocs()
+	c.Ev.Note(fmt.Sprintf("%d dense documents with an over-full last index buffer", len(fullTail)))
+	ncase += len(fullTail)
 	for i := 0; i < ncase; i++ {
 		nb := 2 + r.Intn(8)
 		if i%9 == 0 {
@@ -286,6 +293,9 @@ func checkC07(c *Ctx) {
 			// a big object cut inside a member: stage 1 rejects it at its very end, after
 			// stage 2 has consumed everything it was handed (also: exactly after a colon)
 			doc = truncatedObjects(r, 1)[0]
+		}
+		if k := ncase - 1 - i; k < len(fullTail) {
+			doc = fullTail[k]
 		}
 		mode := i % 5
 		procs := []int{1, 2, 4, 16}[(i/5)%4]
